@@ -6,10 +6,11 @@ EXPLANATION = (
     "mutated, through which call path' is computed to a fixpoint; the read-only entry points named in the property "
     "(exporters, array builders, piano rolls, map properties, pretty printers, unfolders, estimators, transpose) must "
     "not have their argument in that summary. Plus (ITER) Score and Performance hand out a fresh iterator per "
-    "iteration and len/getitem/iter read one list; (GLOBAL) no reachable function writes module-level state."
+    "iteration and len/getitem/iter read one list; (GLOBAL) no reachable function writes module-level state; (SET-ORDER) no "
+    "reachable function turns a set of objects hashed by address into an ordered sequence."
 )
 NOT_DECIDED = [
-    "bit-identical results on a second call beyond the absence of hidden state (dict order / float non-determinism not modelled)",
+    "bit-identical results on a second call beyond the absence of hidden state and of address-ordered sets (float non-determinism of the numerical libraries not modelled)",
     "mutations hidden behind unresolved dynamic dispatch (counted as unresolved, silent)",
 ]
 S, M, P = "partitura.score", "partitura.utils.music", "partitura.performance"
@@ -50,3 +51,4 @@ def run(ctx):
     OW.rule_F1(ctx, obs, "observer methods (dunder operators, string forms, property getters) of partitura.score and partitura.performance")
     OW.rule_iterators(ctx)
     OW.rule_global_state(ctx, [q for q, _ in ENTRIES])
+    OW.rule_set_order(ctx, [q for q, _ in ENTRIES])
